@@ -29,10 +29,25 @@ static std::string judge(const std::string& num, int ctx, size_t pad) {
   if (ctx == 0) text += num;
   else if (ctx == 1) text += "[0," + num + ",1]";
   else text += "{\"k\":" + num + ",\"z\":0}";
+  // ctx 3: ParseSchema of {"k":NUM,"z":0} into a document that declares k (the number lands in an existing node);
+  // ctx 4: ParseSchema of NUM into a document whose root is a scalar; ctx 5: ParseOnDemand of /k/1 in {"k":[0,NUM]}
+  if (ctx == 5) text = std::string(pad, ' ') + "{\"k\":[0," + num + "]}";
   std::unique_ptr<char[]> buf(new char[text.size()]);
   memcpy(buf.get(), text.data(), text.size());
   Document doc;
-  doc.Parse(buf.get(), text.size());
+  if (ctx == 3) {
+    doc.Parse("{\"k\":-1,\"z\":\"old\"}");
+    doc.ParseSchema(buf.get(), text.size());
+  } else if (ctx == 4) {
+    doc.Parse("-7");
+    doc.ParseSchema((std::string(pad, ' ') + num).c_str(), pad + num.size());
+  } else if (ctx == 5) {
+    JsonPointer jp;
+    jp /= JsonPointerNode("k");
+    jp /= JsonPointerNode(1);
+    doc.ParseOnDemand(buf.get(), text.size(), jp);
+  } else
+    doc.Parse(buf.get(), text.size());
   char b[200];
   if (!finite) {
     if (!doc.HasParseError()) return "number that rounds to infinity was accepted";
@@ -48,7 +63,7 @@ static std::string judge(const std::string& num, int ctx, size_t pad) {
   }
   const Document::NodeType* n = &doc;
   if (ctx == 1) n = &doc[1];
-  else if (ctx == 2) n = &doc.MemberBegin()->value;
+  else if (ctx == 2 || ctx == 3) n = &doc.MemberBegin()->value;
   std::string err;
   MV got = walk(*n, &err);
   if (!err.empty()) return err;
@@ -254,7 +269,8 @@ static void property(Src& s, Case& c) {
       break;
     }
   }
-  int ctx = (int)s.index(3);
+  int ctx = s.coin(3, 4) ? (int)s.index(3) : 3 + (int)s.index(3);
+  c.cls("entry:" + std::string(ctx < 3 ? "Parse" : ctx < 5 ? "ParseSchema" : "ParseOnDemand"));
   size_t pad = s.coin(1, 2) ? 0 : (size_t)s.pick(0, 40);
   c.note("num", num);
   c.note("ctx", std::to_string(ctx));
@@ -288,7 +304,7 @@ static void direct(const Fields& f, Case& c) {
   if (!is_num) return;  // not a bare number spelling: outside this harness's domain
   int ctx = field(f, "ctx") ? atoi(field(f, "ctx")->c_str()) : -1;
   size_t pad = field(f, "pad") ? (size_t)atoi(field(f, "pad")->c_str()) : 0;
-  for (int k = 0; k < 3; k++) {
+  for (int k = 0; k < 6; k++) {
     if (ctx >= 0 && ctx != k) continue;
     std::string m = judge(*num, k, pad);
     if (!m.empty()) c.fail(m + " | num=" + printable(*num, 900) + " ctx=" + std::to_string(k));
